@@ -185,7 +185,7 @@ def m_C05(tier):
                             continue
                         cfgs.append(C(mod, alg, 1, purge, 'str', b, 'seeded_archive' if not b.startswith('direct') else 'empty',
                                       nargs=2, spellings=1))
-    cfgs += longuse_configs(tier)
+    cfgs += longuse_configs(tier, deep=True)
     return cfgs
 
 
@@ -198,6 +198,7 @@ def m_C06(tier):
                     cfgs.append(C(mod, alg, ms, False, 'default', backend, init,
                                   nargs=min(4, ms + 2) if tier == 'quick' else min(5, ms + 2), spellings=1))
     cfgs += narrow_configs(tier)
+    cfgs += [c for c in longuse_configs(tier, deep=True) if c['longuse'] == 'cycles']
     cfgs += scale_configs(tier)
     return cfgs
 
@@ -219,7 +220,7 @@ def narrow_configs(tier):
     return cfgs
 
 
-def longuse_configs(tier, backends=None):
+def longuse_configs(tier, backends=None, deep=True):
     """the LRU use-queue is compacted once it holds more than 10 * maxsize recorded uses: a code path that only runs after a
     dozen calls.  Two keys, maxsize 1 (thorough: and 2), macro events that put 10*maxsize-1 / 10*maxsize+1 uses in the queue, and
     the property's own probes around them"""
@@ -228,14 +229,20 @@ def longuse_configs(tier, backends=None):
         for ms in ((1,) if tier == 'quick' else (1, 2)):
             for backend in (backends or (('none',) if tier == 'quick' else ('none', 'dict'))):
                 cfgs.append(C(mod, 'lru', ms, False, 'default', backend, nargs=2, spellings=1, longuse=True,
-                              depth=4 if tier == 'quick' else 5, states=500 if tier == 'quick' else 5000))
+                              depth=7 if tier == 'quick' else 9, states=1500 if tier == 'quick' else 12000))
+        if deep:
+            # two compaction cycles, three keys: both macro lengths on both keys (bookkeeping damaged by one compaction
+            # only shows at the next)
+            cfgs.append(C(mod, 'lru', 1, False, 'default', (backends or ('none',))[0], nargs=3, spellings=0, longuse='cycles',
+                          depth=7 if tier == 'quick' else 9, states=3000 if tier == 'quick' else 30000))
     return cfgs
 
 
 LONGUSE_PROBES = {
     'C01': [('clear',)],
-    'C02': [('dump',), ('clear',)],
+    'C02': [('dump',), ('load',)],
     'C05': [('clear',)],
+    'C06': [('clear',)],
     'C07': [('dump',)],
     'C15': [('info',), ('clear',)],
     'C16': [('raise', 0, 'Boom'), ('raise', 1, 'Boom')],
@@ -285,7 +292,7 @@ def m_C02(tier):
             cfgs.append(C(mod, alg, 1, False, 'default', 'dict', nargs=2, spellings=0,
                           narrow=[['arch', False], ['arch', True], ['newarch'], ['dump']], depth=7 if tier == 'quick' else 8,
                           states=3000 if tier == 'quick' else 20000))
-    cfgs += longuse_configs(tier)
+    cfgs += longuse_configs(tier, backends=('dict',), deep=True)
     return cfgs
 
 
@@ -431,6 +438,8 @@ def ev_for(prop, cfg, tier):
     sp = cfg.get('spellings', 2)
     if cfg.get('longuse'):
         ms = cfg['maxsize']
+        if cfg['longuse'] == 'cycles':
+            return call_events(n, sp) + [('callx', i, m) for i in (0, 1) for m in (10 * ms - 1, 10 * ms + 1)] + LONGUSE_PROBES[prop]
         return call_events(n, sp) + [('callx', 0, 10 * ms - 1), ('callx', 1, 10 * ms + 1)] + LONGUSE_PROBES[prop]
     if cfg.get('scale'):
         # fill the cache in one macro event, then single calls around the bound
